@@ -46,7 +46,7 @@ def presentation(rng, shape, which):
         order = list(range(nr)); rng.shuffle(order); kw['rule_order'] = order
     kw['node_perm'] = {ri: rng.sample(range(len(r['nodes'])), len(r['nodes'])) for ri, r in enumerate(shape['rules'])}
     kw['edge_perm'] = {ri: rng.sample(range(len(r['edges'])), len(r['edges'])) for ri, r in enumerate(shape['rules'])}
-    kw['ids'] = ['implicit', 'explicit', 'mixed'][which % 3]
+    kw['ids'] = ['implicit', 'explicit', 'mixed', 'derived', 'derived'][which % 5]
     if which % 4 >= 2:
         kw['names'] = {**{('nl', i): f'q{7 - i}' for i in range(len(shape['nls']))},
                        **{('t', i): f'Z{i}z' for i in range(len(shape['terms']))},
